@@ -18,13 +18,20 @@ def gen(rng, tier):
     n = 8000 if tier == "thorough" else 500
     cases = []
     for _ in range(n):
-        fr = gen_dm.make_frame(rng)
+        sum_group = rng.random() < 0.08
+        fr = gen_dm.make_frame(rng, nlev={"h": 2} if sum_group else None)
         f = gen_dm.rand_formula(rng, with_group=0.6, response=rng.choice(["y", "y", "f", "o", "f['b']", "prop(succ, n_trials)"]))
+        if sum_group:
+            # a contrast-coded grouping factor (full sum coding of two levels: the omitted level's row is [1, -1]): a
+            # seen group is a seen group, the matrix on new data widens only for groups that are really new
+            f = f.split(" + (")[0] + rng.choice([" + (1 | S(h))", " + (x | S(h))", " + (0 + x | S(h)) + (1 | g)"])
         chain = []
+        placed_all = []
         for _ in range(rng.randint(1, 3)):
             new, placed = _C10._new_frame(rng, fr)
             # unseen levels only in grouping variables g, h (mode silent) so that common terms using them stay legal
             chain.append(new)
+            placed_all.append(sorted(placed))
         kind = "random"
         if rng.random() < 0.5:
             # missing values in columns the formula does not use: every observation is retained
@@ -36,7 +43,7 @@ def gen(rng, tier):
                     for r in rng.sample(range(nrows), rng.randint(1, 3)):
                         col["values"][r] = None
             kind = "unused-missing"
-        cases.append({"formula": f, "frame": fr, "na": "drop", "chain": chain, "kind": kind})
+        cases.append({"formula": f, "frame": fr, "na": "drop", "chain": chain, "kind": kind, "placed": placed_all})
     for _ in range(100 if tier == "thorough" else 12):
         fr = gen_dm.make_frame(rng)
         for col in fr["columns"]:
@@ -288,6 +295,18 @@ def oracle(c):
             err = _check_container(r, f"{f!r} {part} after evaluate_new_data #{k + 1}", len(df))
             if err:
                 return err
+            if part == "group" and c.get("placed") is not None and k < len(c["placed"]):
+                # no unseen value in any grouping variable: nothing is a new group, the matrix keeps its training width
+                gvars = set()
+                for t in obj.terms.values():
+                    for cp in t.factor.components:
+                        a = D.ATOMS.get(cp.name)
+                        gvars.add(a[1] if a else "?")
+                if "?" not in gvars and not (gvars & set(c["placed"][k])):
+                    if list(r.factors_with_new_levels) or np.asarray(r.design_matrix).shape[1] != np.asarray(obj.design_matrix).shape[1]:
+                        return (f"{f!r}: new frame #{k + 1} has no unseen value in the grouping variables {sorted(gvars)} but "
+                                f"factors_with_new_levels = {list(r.factors_with_new_levels)} and the group matrix has "
+                                f"{np.asarray(r.design_matrix).shape[1]} columns (training: {np.asarray(obj.design_matrix).shape[1]})")
             if part == "common":
                 try:
                     rdf2 = r.as_dataframe()
